@@ -453,6 +453,89 @@ def kinds(*ks):
     return lambda kind, mm: kind in ks or kind.split(":")[0] in ks
 
 
+def _push_eval(p, d, vfile, names_prefixes, on_bad):
+    outs = coq_eval([os.path.join(d, vfile)])
+    rc, out = outs[os.path.join(d, vfile)]
+    if rc != 0:
+        p.violation("model-eval-failed", "the model could not be evaluated on %s: %s" % (vfile, out[-800:]), dict(kind="coq-eval", log=out[-3000:]), found_input=False)
+        return
+    for m in re.finditer(r"(bad\w*?)(\d+) =\s*(\[.*?\])\s*:\s*list", out, re.S):
+        if m.group(3).strip() != "[]":
+            on_bad(m.group(1), int(m.group(2)), [int(x) for x in re.findall(r"(\d+)%nat", m.group(3))])
+
+
+def part_push_conn(ctx):
+    """the push connection driven one batch at a time (verif hook) against a scripted endpoint"""
+    p = Part("push-connection")
+    d = os.path.join(ctx["work"], "pushconn")
+    args = ["push-conn", "-seed", str(ctx["seed"]), "-out", d] + (["-n", "8", "-batches", "60", "-slow", "2"] if QUICK(ctx)
+                                                                   else ["-n", "48", "-batches", "150", "-slow", "5", "-all-status"])
+    rc, out = harness(args, timeout=3000)
+    if rc != 0:
+        p.violation("harness-failed", "the push connection run failed: " + out[-1500:], dict(log=out[-3000:]), found_input=False)
+        return p
+    info = json.load(open(os.path.join(d, "push_conn.json")))
+    batches = json.load(open(os.path.join(d, "push_conn_batches.json")))
+    p.evaluations = info["receives"] + info["envelopes"]
+    p.nontrivial = info["nack_batches"] + info["kinds"].get("slow", 0)
+    p.traces = info["sequences"]
+    p.samples = info["samples"][:3]
+    p.info = {k: info[k] for k in ("sequences", "receives", "ack_batches", "nack_batches", "envelopes", "distinct_final_statuses", "kinds")}
+    p.info["exhaustive_status_sweep_200_599"] = not QUICK(ctx)
+    seen = set()
+    for pr in info.get("problems") or []:
+        if pr["key"] not in seen:
+            seen.add(pr["key"])
+            p.violation(pr["key"], "push connection, sequence %s: %s" % (pr.get("sequence"), pr["detail"]), dict(kind="push-conn", problem=pr, seed=ctx["seed"]))
+
+    def bad(name, seq, idx):
+        if name == "badenc":
+            key, what = "envelope-base64", "message.data is not the standard base64 of the payload (Base64.encode)"
+        else:
+            key, what = "receive-differs", "Receive() returned a different ack/nack decision, window or FlowControl than Push.v"
+        if key in seen:
+            return
+        seen.add(key)
+        b = batches[str(seq)]
+        p.violation(key, "push connection, sequence %d, batch %s: %s: %s" % (seq, idx[:3], what, [b[i] for i in idx[:2] if i < len(b)] if name != "badenc" else ""),
+                    dict(kind="push-conn", sequence=seq, batches=idx[:5], observed=[b[i] for i in idx[:5] if i < len(b)] if name != "badenc" else None,
+                         history=b[:max(idx[:1] or [0]) + 1] if name != "badenc" else None, seed=ctx["seed"]))
+    _push_eval(p, d, "push_conn.v", None, bad)
+    return p
+
+
+def part_push_e2e(ctx):
+    """the production push streamer on a real database against the scripted endpoint"""
+    p = Part("push-end-to-end")
+    d = os.path.join(ctx["work"], "pushe2e")
+    rc, out = harness(["push-e2e", "-seed", str(ctx["seed"]), "-reps", "1" if QUICK(ctx) else "8", "-out", d], timeout=3000)
+    if rc != 0:
+        p.violation("harness-failed", "the push end-to-end run failed: " + out[-1500:], dict(log=out[-3000:]), found_input=False)
+        return p
+    info = json.load(open(os.path.join(d, "push_e2e.json")))
+    p.evaluations = info["totals"]["requests"]
+    p.nontrivial = info["totals"]["failure_responses"]
+    p.traces = len(info["scenarios"])
+    p.samples = [dict(scenario=r["scenario"], messages=r["messages"], requests=r["requests"], max_in_flight=r["max_in_flight"], max_window=r["max_window"]) for r in info["results"][:3]]
+    p.info = dict(totals=info["totals"], min_redelivery_gap_ms=info["min_redelivery_gap_ms"], scenarios=info["scenarios"])
+    seen = set()
+    for pr in info.get("problems") or []:
+        if pr["key"] not in seen:
+            seen.add(pr["key"])
+            p.violation(pr["key"], "push scenario %s (%s): %s" % (pr.get("sequence"), info["scenarios"][pr.get("sequence", 0)], pr["detail"]),
+                        dict(kind="push-e2e", problem=pr, scenario=info["scenarios"][pr.get("sequence", 0)], seed=ctx["seed"]))
+
+    def bad(name, seq, idx):
+        key = "envelope-base64" if name == "badenc" else "ack-decision-differs"
+        if key not in seen:
+            seen.add(key)
+            p.violation(key, "push scenario %d: %s (cases %s)" % (seq, "message.data is not the standard base64 of the payload" if name == "badenc"
+                                                                  else "a push was acknowledged / not acknowledged against Push.classify", idx[:5]),
+                        dict(kind="push-e2e", scenario=seq, cases=idx[:10], seed=ctx["seed"]))
+    _push_eval(p, d, "push_e2e.v", None, bad)
+    return p
+
+
 def part_c15_meta(ctx):
     """paired histories with / without spliced prune jobs on the real code + convergence rounds;
     run B is also checked step by step against the model and by the prune monitor"""
@@ -555,7 +638,8 @@ def claim_c06(kind, mm):
 def claim_c14(kind, mm):
     k = kind.split(":")[0]
     return kind == "Job:ExpireSubs" or k == "SetDelay" or (k == "Pull" and ("MSubs" in mm or "MResp" in mm)) or \
-        (k == "Publish" and "MDels" in mm) or (k in ("CreateSub", "UpdateSub") and "MSubs" in mm) or kind == "Job:PruneExpiredDeliveries"
+        (k == "Publish" and "MDels" in mm) or (k in ("CreateSub", "UpdateSub") and "MSubs" in mm) or kind == "Job:PruneExpiredDeliveries" or \
+        "d.expires" in mm or "s.expires" in mm      # retention / expiry deadlines written by any step (seek revival included)
 
 
 def claim_c17(kind, mm):
@@ -679,6 +763,19 @@ CHECKS = {
                                   "the expiry sweep and the dead-letter sweep are client-visible by design and belong to the client history of both runs",
                                   "client-visible trace equality over all histories is checked metamorphically, not proved; proved are single-step invisibility of the view (incl. blockedness), "
                                   "removal of dead rows only, and convergence"]),
+    "C19": dict(
+        props=["C19pure", "C19"],
+        parts=[part_push_conn, part_push_e2e],
+        rule="(1) the push connection (verif hook) against a scripted HTTP endpoint, one batch at a time: batches of 1..10 pushes ending in a fast success, a slow (>= 1 s) success, a non-success final "
+             "status (quick: 35 codes; thorough: every code 200..599) or a transport error (connection reset); every Receive() is compared with Push.v (ack vs nack list, window after, FlowControl message), "
+             "one sequence drives the window to its cap of 1000; every request body is decoded and compared with the message (base64 against Base64.encode evaluated in Coq, attributes, message id, "
+             "ordering key, publish time, subscription, delivery attempt); (2) the production streamer (NewHttpPusher + MessageStreamer) on a real database: scenarios mixed / ordered / all-success / slow, "
+             "endpoint answering out of order with per-attempt plans (failures then a success): every envelope, success => row completed and never pushed again, failure => not completed and pushed again "
+             "as the next attempt no earlier than the backoff, window sampled within [1, 1000], concurrent pushes within the largest window seen; non-trivial = failure answers / nack and slow batches",
+        trusted=["Go's net/http client and server, encoding/json (envelope marshalling) and time formatting are trusted libraries; the harness decodes the envelope with encoding/json",
+                 "the verif hook actions.VerifNewPushConn (add-only, build tag verif) exposes the unexported connection type"],
+        assumptions=["partial: the real-time split fast/slow (< 1 s) is driven with clear margins (0-60 ms vs 1.1 s); status 102 (and every 1xx) cannot be observed as a final status by Go's HTTP client and is not exercised",
+                     "concurrency of the streamer and the Go scheduler are exercised, not exhausted (the bound is proved on the window model and checked on the runs)"]),
     "C03": dict(
         props=["C03"],
         parts=[engine_part("delivery", 32, 600, 45, claim_c03, ["ack_effective", "ack_noop", "modack_effective", "nack_rescheduled"])],
